@@ -92,7 +92,13 @@ theorem never_run_again (s s' : Pool) (tid : Nat) (hs : step s (.spawn tid) = so
     simp only [Option.some.injEq, Prod.mk.injEq] at hst
     obtain ⟨rfl, rfl⟩ := hst
     exact ⟨⟨t, ht, hg.1.1.2⟩, ⟨_, task?_set_same s tid t _ _ ht, rfl⟩⟩
-  · simp at hst
+  · split at hst
+    · rename_i hg
+      simp only [Bool.and_eq_true, Bool.not_eq_true'] at hg
+      simp only [Option.some.injEq, Prod.mk.injEq] at hst
+      obtain ⟨rfl, rfl⟩ := hst
+      exact ⟨⟨t, ht, hg.1.1.2⟩, ⟨_, task?_set_same s tid t _ _ ht, rfl⟩⟩
+    · simp at hst
 
 /-- the core of a task is given back only when its process no longer exists (in particular after the
     kill sequence of a cancelled or timed-out task) -/
